@@ -7,6 +7,7 @@
 //! application data readable both ways (safety, checked in `c02::run_script_ticks`), and — after the
 //! recovery rounds — both Connected (liveness).
 use super::c02::{Act, Rule, Script, run_script_ticks};
+use super::c03::refpeer::{RefFault, ref_session};
 use crate::{Args, Rng, Run};
 
 /// datagram kinds of a handshake: (from_client, kind) — kind as in `c02::kind`
@@ -46,6 +47,14 @@ pub fn run(args: &Args) {
     let rt = tokio::runtime::Builder::new_current_thread().enable_all().build().unwrap();
     const ROUNDS: u32 = 3;
     if let Some(case) = &args.replay {
+        if let Some(f) = case.strip_prefix("ref ") {
+            match rt.block_on(ref_session(RefFault::parse(f.trim()))) {
+                Some(o) => { println!("ops: {}\nimpl: {}", o.line.0, o.line.1);
+                    println!("client={} hvr_seen={} exporter_equal={:?} echo={:?} profile={:?}", o.client_final, o.hvr_seen, o.exporter_equal, o.echo_ok, o.profile); }
+                None => println!("inconclusive (timing)"),
+            }
+            return;
+        }
         let sc = Script::parse(case);
         match rt.block_on(run_script_ticks(&sc, ROUNDS)) {
             Some(o) => { for (i, l) in o.lines { println!("ops: {i}\nimpl: {l}"); } for t in o.tags { println!("tag {t}"); } for (s, d) in o.fails { println!("ORACLE-FAIL {s} {d}"); } }
@@ -85,6 +94,23 @@ pub fn run(args: &Args) {
             pending = again;
         }
         for _ in pending { run.count("script_skipped_timing"); }
+    }
+    // rustrtc client against the reference DTLS stack (webrtc-rs `dtls`): cookie exchange, key schedule, exporter
+    let reps = if args.tier_thorough { 12 } else { 2 };
+    for fault in [RefFault::None, RefFault::NoEms, RefFault::DupHvr, RefFault::DupHvrLate, RefFault::SwapFlight, RefFault::DupFlight, RefFault::SplitSwap, RefFault::SplitDup] {
+        for _ in 0..reps {
+            let text = format!("ref {}", fault.text());
+            let mut res = None;
+            for _ in 0..4 { res = rt.block_on(ref_session(fault.clone())); if res.is_some() { break; } run.count("ref_timing_retry"); }
+            let Some(o) = res else { run.count("ref_skipped_timing"); continue; };
+            run.case("hs", &o.line.0, &o.line.1, true);
+            run.count(&format!("ref:{}:client-{}", fault.text(), o.client_final));
+            if o.hvr_seen { run.count("ref_hello_verify_request_exchanged"); }
+            if o.client_final != 'C' { run.fail(&format!("conv:reference-server:not-connected:{}", fault.text()), &text, &format!("client ended {}", o.client_final)); }
+            if o.exporter_equal == Some(false) { run.fail("conv:reference-server:exporter-output-differs", &text, ""); }
+            if o.echo_ok == Some(false) { run.fail("conv:reference-server:application-data-not-echoed", &text, ""); }
+            if let (Some(a), Some(b)) = o.profile { if a != b { run.fail("conv:reference-server:srtp-profile-differs", &text, &format!("{a} vs {b}")); } }
+        }
     }
     run.notes.insert("rounds".into(), serde_json::json!(ROUNDS));
     run.finish();
